@@ -16,6 +16,8 @@
  * color_map), DRCS code points U+F000 + 64 * plane + glyph with glyph < 48, drcs[plane] NULL or 48 x 60 bytes,
  * drcs_clut NULL or 64 entries < 40, drcs_clut_offs + 15 < 64.
  *
+ * Optional case split -DSIZE0=.. -DSIZE1=.. -DDRCS=0|1: see the comment in the harness.
+ *
  * KNOWN_C16_CUT_WIDE: a DOUBLE_WIDTH / DOUBLE_SIZE / DOUBLE_SIZE2 cell in the LAST column of the region is drawn 2
  * cells wide: it writes outside the region's pixel rectangle, and in the last pixel row beyond the documented
  * canvas size when rowstride has no slack.  With the define such regions are excluded (assumed away).
@@ -90,6 +92,19 @@ V_HARNESS(h_c16_gfx)
   PAGE.drcs_clut = have_clut ? CLUT : NULL;
   for (i = 0; i < 32; i++) PAGE.drcs[i] = have_drcs ? DRCS_FONT : NULL;
   column = in_u8() % (PCOLS - RW + 1); row = in_u8() % (PROWS - RH + 1);
+#ifdef SIZE0
+  /* case split for the 4-byte pixel formats (the pen is read through a byte pointer into a 256-byte union, which costs
+     a 256-way multiplexer per pixel; all five size variants x DRCS at once do not convert in 280 s): the size attribute
+     of the cells in page column 0 / 1 and "DRCS or ordinary character" are fixed by the grid, the region sits at (0,0) */
+  column = 0; row = 0;
+  for (i = 0; i < PCOLS * PROWS; i++) {
+    vbi_char *c = &PAGE.text[i];
+    if (i % PCOLS == 0) c->size = SIZE0;
+    if (i % PCOLS == 1) c->size = SIZE1;
+    if (DRCS) c->unicode = 0xF000 | (c->unicode & 0x7C0) | ((c->unicode & 0x3F) % 48);
+    else if (c->unicode >= 0xF000) c->unicode &= 0x7FFF;
+  }
+#endif
   reveal = in_bool(); flash_on = in_bool();
   fill = IN_PIX();
 #ifdef VERIF_CBMC
